@@ -129,7 +129,7 @@ fn knobs(two_cconvs: bool) -> Knobs {
         subs: (1, 3), blocks: (2, 6), w_branch: 14, w_cbranch: 30, w_cbranch_ret: 6, w_return: 12, w_ext_call: 40, w_int_call: 10,
         w_callind: 5, w_branchind: 3, w_nojump: 1, w_callother: 1, w_single_cbranch: 1, p_no_ret: 8, p_empty_sub: 3, p_forward: 60, p_chain: 0,
         // NULL checks whose fall-through is an indirect jump with listed targets
-        p_cbranch_ind: (1, 2), min_hints: 1,
+        p_cbranch_ind: (1, 2), min_hints: 1, p_cond_call: (0, 1), shuffle_blocks: false,
         sub_cconvs: if two_cconvs { vec!["".to_string(), "__fastalt".to_string(), "__stdcall".to_string()] } else { vec!["".to_string()] },
     }
 }
